@@ -62,6 +62,12 @@ LAYOUTS = {
                        "a/b.xbb": ["name b", "version 1.0", 'include "b/c.xbb"', "", "c | %(b)s", "Bg | %(b)s"],
                        "a.xbb": ["name a", "version 1.0", 'include "a/b.xbb"', "", "b | %(a)s", "Ag | %(a)s"],
                        "top/main.xbb": ["name main", "version 1.0", 'include "../a.xbb"', "", "a | %(m)s", "a | %(m)s"]}, "top/main.xbb"),
+    "nested_template_passthrough": ({"lib/inner.xbb": ["name Inner", "version 1.0", "", "Rgate({a}) | %(a)s", "BSgate({a}-{b}, {b}) | [%(a)s, %(b)s]"],
+                                     "lib/outer.xbb": ["name Outer", "version 1.0", 'include "inner.xbb"', "", "Sgate({b}) | %(b)s", "Inner(a={b}, b={c}) | [%(b)s, %(a)s]"],
+                                     "main.xbb": ["name main", "version 1.0", 'include "lib/outer.xbb"', "", "Outer(b=%(f)s, c=%(f)s) | [%(m)s, %(m)s]"]}, "main.xbb"),
+    "nested_template_swapped": ({"inner.xbb": ["name Inner", "version 1.0", "", "Dgate(2*{x}+{y}, {y}/4) | %(a)s"],
+                                 "outer.xbb": ["name Outer", "version 1.0", 'include "inner.xbb"', "", "Inner(x={y}, y={x}) | %(a)s", "Inner(y={y}*2, x={x}) | %(a)s"],
+                                 "main.xbb": ["name main", "version 1.0", 'include "outer.xbb"', "", "Outer(x=%(f)s, y=-%(f)s) | %(m)s"]}, "main.xbb"),
     "target_and_include": ({"inc.xbb": inc2(), "main.xbb": ["name main", "version 1.0", "target X8 (shots=%(i)s)", 'include "inc.xbb"', "", "inc | [%(m)s, %(m)s]"]}, "main.xbb"),
     # mismatched calls must be refused
     "bad_arity": ({"inc.xbb": inc2(), "main.xbb": ["name main", "version 1.0", 'include "inc.xbb"', "", "inc | [%(m)s, %(m)s, %(m)s]"]}, "main.xbb"),
